@@ -427,7 +427,7 @@ def _c03_scenario(desc, optrees, real=True):
     n = lens[desc['ni'] - 1]
     lines = [unparse.stmt(optrees[i - 1]) for i in (desc['o1'], desc.get('o2', 0), desc.get('o3', 0)) if i]
     names = {'a': [0] * n, 'd': {'k%d' % i: 0 for i in range(n)}, 'b': [5], 's': 'a' * n, 'k': 2, 'm': Decimal(2),
-             'e': [[5] if i == 0 else 0 for i in range(n)]}
+             'e': [[5] if i == 0 else 0 for i in range(n)], 'di': {i: 0 for i in range(n)}}
     return {'names': [names], 'host': {}, 'calls': [{'src': '\n'.join(lines), 'n': 0, 'max': 10 ** 9}], 'desc': desc}
 
 
